@@ -85,7 +85,17 @@ TraceReread ==
                (/\ sameQ(r.thr, p.thr) /\ sameQ(r.fnr, p.fnr) /\ sameQ(r.fpr, p.fpr)
                 /\ \A v \in Views : sameQ(r[v], p[v]))>>}))
 
-Next == TraceNew \/ TraceRoc \/ TraceRocBadAxis \/ TraceReread
+(* history: the caller re-assigns the configuration attributes of a live object (as enum members  *)
+(* or as the plain strings the label type compares equal to)                                      *)
+TraceSetConfig ==
+  /\ IsEvent("SetConfig")
+  /\ LET e == Log[l]
+         o == [store[e.h] EXCEPT !.sc = e.sc, !.ec = e.ec]
+     IN /\ store' = (e.h :> o) @@ store /\ UNCHANGED last
+        /\ Report(e, Failing({<<"C15.raised", e.exc = "">>,
+                              <<"C15.state_after_assigning_configuration", e.exc # "" \/ ObjOfRec(e.post) = o>>}))
+
+Next == TraceNew \/ TraceRoc \/ TraceRocBadAxis \/ TraceReread \/ TraceSetConfig
 Spec == Init /\ [][Next]_vars
 AllConsumed == TLCGet("stats").diameter - 1 = Len(Log)
 =============================================================================
